@@ -79,8 +79,10 @@ Definition flat_runs (l : list (Z * Z)) : list Z :=
 (* ------------------------------------------------------------------ replicas, durable state *)
 Record replica := { r_ver : Z; r_app : list wrec }.
 
-Definition rkey := (Z * Z)%type.   (* (tractserver, tract key) *)
-Definition rk_eqb (a b : rkey) : bool := (fst a =? fst b) && (snd a =? snd b).
+Definition tkt := (Z * Z)%type.    (* tract key: (blob, tract index) *)
+Definition tk_eqb (a b : tkt) : bool := (fst a =? fst b) && (snd a =? snd b).
+Definition rkey := (Z * tkt)%type. (* (tractserver, tract key) *)
+Definition rk_eqb (a b : rkey) : bool := (fst a =? fst b) && tk_eqb (snd a) (snd b).
 
 Fixpoint rget (m : list (rkey * replica)) (k : rkey) : option replica :=
   match m with
@@ -108,7 +110,20 @@ Definition zset {A} (m : list (Z * A)) (k : Z) (v : A) := (k, v) :: zdel m k.
 
 Definition zmem (x : Z) (l : list Z) : bool := existsb (Z.eqb x) l.
 
-Definition tkey (blob tract : Z) : Z := blob * 64 + tract.
+Fixpoint tget {A} (m : list (tkt * A)) (k : tkt) : option A :=
+  match m with
+  | [] => None
+  | (k', v) :: r => if tk_eqb k k' then Some v else tget r k
+  end.
+Fixpoint tdel {A} (m : list (tkt * A)) (k : tkt) : list (tkt * A) :=
+  match m with
+  | [] => []
+  | (k', v) :: r => if tk_eqb k k' then tdel r k else (k', v) :: tdel r k
+  end.
+Definition tset {A} (m : list (tkt * A)) (k : tkt) (v : A) := (k, v) :: tdel m k.
+Definition tmem (x : tkt) (l : list tkt) : bool := existsb (tk_eqb x) l.
+
+Definition tkey (blob tract : Z) : tkt := (blob, tract).
 
 (* ------------------------------------------------------------------ RPCs *)
 Definition K_StatBlob := 2.   Definition K_GetTracts := 3.  Definition K_ExtendBlob := 4.
@@ -151,7 +166,9 @@ Definition sort_rpcs (l : list rpc) : list rpc := fold_right ins_rpc [] l.
 
 (* pool entry *)
 Record pent := { p_id : Z; p_rpc : rpc; p_st : Z (* 0 parked, 1 callee running, 2 executed *);
-                 p_res : list Z (* reply: class :: payload *); p_lose : bool; p_auto : bool;
+                 p_res : list Z (* reply: class :: payload *);
+                 p_tr : list (Z * Z * list (Z * Z)) (* tract list of a GetTracts/ExtendBlob reply: (index, version, (host, address known)s) *);
+                 p_lose : bool; p_auto : bool;
                  p_owner : Z (* curator task waiting for the reply, 0 = nobody *) }.
 
 (* ------------------------------------------------------------------ curator tasks *)
@@ -162,19 +179,19 @@ Record task := { t_op : Z; t_kind : Z (* 5 replicate, 6 fixVersion *); t_gen : Z
                  t_cliver : Z; t_badts : Z; t_rpc : Z (* pool id of the FixVersion RPC it serves, 0 = none *) }.
 
 (* client knowledge: a location entry delivered to a client *)
-Record kent := { ke_cli : Z; ke_tk : Z; ke_ver : Z; ke_hosts : list Z; ke_addr : list Z (* hosts whose address the reply carried *);
+Record kent := { ke_cli : Z; ke_tk : tkt; ke_ver : Z; ke_hosts : list Z; ke_addr : list Z (* hosts whose address the reply carried *);
                  ke_durable : bool (* from GetTracts (true) or from ExtendBlob (false) *); ke_acks : Z (* writes acknowledged when the lookup ran *) }.
 
 (* client operation in progress *)
 Record cop := { o_id : Z; o_kind : Z; o_cli : Z; o_blob : Z; o_off : Z; o_len : Z; o_wid : Z;
-                o_succ : list (Z * Z * Z * Z * Z) (* tk, ts, version, off, len of accepted writes *);
-                o_acked : list Z (* tracts whose AckExtend was delivered OK *);
-                o_reads : list (Z * Z * Z * list (Z * Z)) (* tk, off, len, data runs; newest first *) }.
+                o_succ : list (tkt * Z * Z * Z * Z) (* tk, ts, version, off, len of accepted writes *);
+                o_acked : list tkt (* tracts whose AckExtend was delivered OK *);
+                o_reads : list (tkt * Z * Z * list (Z * Z)) (* tk, off, len, data runs; newest first *) }.
 
 Record state := {
   s_reps : list (rkey * replica);
   s_blobs : list (Z * (Z * Z));          (* blob -> (repl, number of tracts) *)
-  s_dtr : list (Z * (Z * list Z));       (* tract key -> (version, hosts) *)
+  s_dtr : list (tkt * (Z * list Z));     (* tract key -> (version, hosts) *)
   s_term : Z;
   s_gen : Z;
   s_known : list (Z * list Z);           (* incarnation -> tractservers it has heard from *)
@@ -188,30 +205,32 @@ Record state := {
   s_done : list (rpc * Z);               (* completed long RPCs: descriptor -> class seen by the caller *)
   s_out : list rpc;                      (* curator RPCs issued during the current event *)
   s_acked : list (Z * Z * wrec);         (* ghost: acknowledged writes (blob, wid, range in blob), newest first *)
+  s_att : list (Z * Z * wrec);           (* ghost: every write attempt started (blob, wid, range in blob), newest first *)
   s_nsynth : Z
 }.
 
 Definition init_state : state :=
   {| s_reps := []; s_blobs := []; s_dtr := []; s_term := 1; s_gen := 1; s_known := []; s_nts := 0;
      s_tasks := []; s_pool := []; s_next := 1; s_know := []; s_ops := []; s_fin := []; s_done := [];
-     s_out := []; s_acked := []; s_nsynth := 0 |}.
+     s_out := []; s_acked := []; s_att := []; s_nsynth := 0 |}.
 
 (* setters *)
-Definition set_reps st v := {| s_reps := v; s_blobs := s_blobs st; s_dtr := s_dtr st; s_term := s_term st; s_gen := s_gen st; s_known := s_known st; s_nts := s_nts st; s_tasks := s_tasks st; s_pool := s_pool st; s_next := s_next st; s_know := s_know st; s_ops := s_ops st; s_fin := s_fin st; s_done := s_done st; s_out := s_out st; s_acked := s_acked st; s_nsynth := s_nsynth st |}.
-Definition set_blobs st v := {| s_reps := s_reps st; s_blobs := v; s_dtr := s_dtr st; s_term := s_term st; s_gen := s_gen st; s_known := s_known st; s_nts := s_nts st; s_tasks := s_tasks st; s_pool := s_pool st; s_next := s_next st; s_know := s_know st; s_ops := s_ops st; s_fin := s_fin st; s_done := s_done st; s_out := s_out st; s_acked := s_acked st; s_nsynth := s_nsynth st |}.
-Definition set_dtr st v := {| s_reps := s_reps st; s_blobs := s_blobs st; s_dtr := v; s_term := s_term st; s_gen := s_gen st; s_known := s_known st; s_nts := s_nts st; s_tasks := s_tasks st; s_pool := s_pool st; s_next := s_next st; s_know := s_know st; s_ops := s_ops st; s_fin := s_fin st; s_done := s_done st; s_out := s_out st; s_acked := s_acked st; s_nsynth := s_nsynth st |}.
-Definition set_term_gen st t g k := {| s_reps := s_reps st; s_blobs := s_blobs st; s_dtr := s_dtr st; s_term := t; s_gen := g; s_known := k; s_nts := s_nts st; s_tasks := s_tasks st; s_pool := s_pool st; s_next := s_next st; s_know := s_know st; s_ops := s_ops st; s_fin := s_fin st; s_done := s_done st; s_out := s_out st; s_acked := s_acked st; s_nsynth := s_nsynth st |}.
-Definition set_nts st v := {| s_reps := s_reps st; s_blobs := s_blobs st; s_dtr := s_dtr st; s_term := s_term st; s_gen := s_gen st; s_known := s_known st; s_nts := v; s_tasks := s_tasks st; s_pool := s_pool st; s_next := s_next st; s_know := s_know st; s_ops := s_ops st; s_fin := s_fin st; s_done := s_done st; s_out := s_out st; s_acked := s_acked st; s_nsynth := s_nsynth st |}.
-Definition set_tasks st v := {| s_reps := s_reps st; s_blobs := s_blobs st; s_dtr := s_dtr st; s_term := s_term st; s_gen := s_gen st; s_known := s_known st; s_nts := s_nts st; s_tasks := v; s_pool := s_pool st; s_next := s_next st; s_know := s_know st; s_ops := s_ops st; s_fin := s_fin st; s_done := s_done st; s_out := s_out st; s_acked := s_acked st; s_nsynth := s_nsynth st |}.
-Definition set_pool st v := {| s_reps := s_reps st; s_blobs := s_blobs st; s_dtr := s_dtr st; s_term := s_term st; s_gen := s_gen st; s_known := s_known st; s_nts := s_nts st; s_tasks := s_tasks st; s_pool := v; s_next := s_next st; s_know := s_know st; s_ops := s_ops st; s_fin := s_fin st; s_done := s_done st; s_out := s_out st; s_acked := s_acked st; s_nsynth := s_nsynth st |}.
-Definition set_next st v := {| s_reps := s_reps st; s_blobs := s_blobs st; s_dtr := s_dtr st; s_term := s_term st; s_gen := s_gen st; s_known := s_known st; s_nts := s_nts st; s_tasks := s_tasks st; s_pool := s_pool st; s_next := v; s_know := s_know st; s_ops := s_ops st; s_fin := s_fin st; s_done := s_done st; s_out := s_out st; s_acked := s_acked st; s_nsynth := s_nsynth st |}.
-Definition set_know st v := {| s_reps := s_reps st; s_blobs := s_blobs st; s_dtr := s_dtr st; s_term := s_term st; s_gen := s_gen st; s_known := s_known st; s_nts := s_nts st; s_tasks := s_tasks st; s_pool := s_pool st; s_next := s_next st; s_know := v; s_ops := s_ops st; s_fin := s_fin st; s_done := s_done st; s_out := s_out st; s_acked := s_acked st; s_nsynth := s_nsynth st |}.
-Definition set_ops st v := {| s_reps := s_reps st; s_blobs := s_blobs st; s_dtr := s_dtr st; s_term := s_term st; s_gen := s_gen st; s_known := s_known st; s_nts := s_nts st; s_tasks := s_tasks st; s_pool := s_pool st; s_next := s_next st; s_know := s_know st; s_ops := v; s_fin := s_fin st; s_done := s_done st; s_out := s_out st; s_acked := s_acked st; s_nsynth := s_nsynth st |}.
-Definition set_fin st v := {| s_reps := s_reps st; s_blobs := s_blobs st; s_dtr := s_dtr st; s_term := s_term st; s_gen := s_gen st; s_known := s_known st; s_nts := s_nts st; s_tasks := s_tasks st; s_pool := s_pool st; s_next := s_next st; s_know := s_know st; s_ops := s_ops st; s_fin := v; s_done := s_done st; s_out := s_out st; s_acked := s_acked st; s_nsynth := s_nsynth st |}.
-Definition set_done st v := {| s_reps := s_reps st; s_blobs := s_blobs st; s_dtr := s_dtr st; s_term := s_term st; s_gen := s_gen st; s_known := s_known st; s_nts := s_nts st; s_tasks := s_tasks st; s_pool := s_pool st; s_next := s_next st; s_know := s_know st; s_ops := s_ops st; s_fin := s_fin st; s_done := v; s_out := s_out st; s_acked := s_acked st; s_nsynth := s_nsynth st |}.
-Definition set_out st v := {| s_reps := s_reps st; s_blobs := s_blobs st; s_dtr := s_dtr st; s_term := s_term st; s_gen := s_gen st; s_known := s_known st; s_nts := s_nts st; s_tasks := s_tasks st; s_pool := s_pool st; s_next := s_next st; s_know := s_know st; s_ops := s_ops st; s_fin := s_fin st; s_done := s_done st; s_out := v; s_acked := s_acked st; s_nsynth := s_nsynth st |}.
-Definition set_acked st v := {| s_reps := s_reps st; s_blobs := s_blobs st; s_dtr := s_dtr st; s_term := s_term st; s_gen := s_gen st; s_known := s_known st; s_nts := s_nts st; s_tasks := s_tasks st; s_pool := s_pool st; s_next := s_next st; s_know := s_know st; s_ops := s_ops st; s_fin := s_fin st; s_done := s_done st; s_out := s_out st; s_acked := v; s_nsynth := s_nsynth st |}.
-Definition set_nsynth st v := {| s_reps := s_reps st; s_blobs := s_blobs st; s_dtr := s_dtr st; s_term := s_term st; s_gen := s_gen st; s_known := s_known st; s_nts := s_nts st; s_tasks := s_tasks st; s_pool := s_pool st; s_next := s_next st; s_know := s_know st; s_ops := s_ops st; s_fin := s_fin st; s_done := s_done st; s_out := s_out st; s_acked := s_acked st; s_nsynth := v |}.
+Definition set_reps st v := {| s_reps := v; s_blobs := s_blobs st; s_dtr := s_dtr st; s_term := s_term st; s_gen := s_gen st; s_known := s_known st; s_nts := s_nts st; s_tasks := s_tasks st; s_pool := s_pool st; s_next := s_next st; s_know := s_know st; s_ops := s_ops st; s_fin := s_fin st; s_done := s_done st; s_out := s_out st; s_acked := s_acked st; s_att := s_att st; s_nsynth := s_nsynth st |}.
+Definition set_blobs st v := {| s_reps := s_reps st; s_blobs := v; s_dtr := s_dtr st; s_term := s_term st; s_gen := s_gen st; s_known := s_known st; s_nts := s_nts st; s_tasks := s_tasks st; s_pool := s_pool st; s_next := s_next st; s_know := s_know st; s_ops := s_ops st; s_fin := s_fin st; s_done := s_done st; s_out := s_out st; s_acked := s_acked st; s_att := s_att st; s_nsynth := s_nsynth st |}.
+Definition set_dtr st v := {| s_reps := s_reps st; s_blobs := s_blobs st; s_dtr := v; s_term := s_term st; s_gen := s_gen st; s_known := s_known st; s_nts := s_nts st; s_tasks := s_tasks st; s_pool := s_pool st; s_next := s_next st; s_know := s_know st; s_ops := s_ops st; s_fin := s_fin st; s_done := s_done st; s_out := s_out st; s_acked := s_acked st; s_att := s_att st; s_nsynth := s_nsynth st |}.
+Definition set_term_gen st t g k := {| s_reps := s_reps st; s_blobs := s_blobs st; s_dtr := s_dtr st; s_term := t; s_gen := g; s_known := k; s_nts := s_nts st; s_tasks := s_tasks st; s_pool := s_pool st; s_next := s_next st; s_know := s_know st; s_ops := s_ops st; s_fin := s_fin st; s_done := s_done st; s_out := s_out st; s_acked := s_acked st; s_att := s_att st; s_nsynth := s_nsynth st |}.
+Definition set_nts st v := {| s_reps := s_reps st; s_blobs := s_blobs st; s_dtr := s_dtr st; s_term := s_term st; s_gen := s_gen st; s_known := s_known st; s_nts := v; s_tasks := s_tasks st; s_pool := s_pool st; s_next := s_next st; s_know := s_know st; s_ops := s_ops st; s_fin := s_fin st; s_done := s_done st; s_out := s_out st; s_acked := s_acked st; s_att := s_att st; s_nsynth := s_nsynth st |}.
+Definition set_tasks st v := {| s_reps := s_reps st; s_blobs := s_blobs st; s_dtr := s_dtr st; s_term := s_term st; s_gen := s_gen st; s_known := s_known st; s_nts := s_nts st; s_tasks := v; s_pool := s_pool st; s_next := s_next st; s_know := s_know st; s_ops := s_ops st; s_fin := s_fin st; s_done := s_done st; s_out := s_out st; s_acked := s_acked st; s_att := s_att st; s_nsynth := s_nsynth st |}.
+Definition set_pool st v := {| s_reps := s_reps st; s_blobs := s_blobs st; s_dtr := s_dtr st; s_term := s_term st; s_gen := s_gen st; s_known := s_known st; s_nts := s_nts st; s_tasks := s_tasks st; s_pool := v; s_next := s_next st; s_know := s_know st; s_ops := s_ops st; s_fin := s_fin st; s_done := s_done st; s_out := s_out st; s_acked := s_acked st; s_att := s_att st; s_nsynth := s_nsynth st |}.
+Definition set_next st v := {| s_reps := s_reps st; s_blobs := s_blobs st; s_dtr := s_dtr st; s_term := s_term st; s_gen := s_gen st; s_known := s_known st; s_nts := s_nts st; s_tasks := s_tasks st; s_pool := s_pool st; s_next := v; s_know := s_know st; s_ops := s_ops st; s_fin := s_fin st; s_done := s_done st; s_out := s_out st; s_acked := s_acked st; s_att := s_att st; s_nsynth := s_nsynth st |}.
+Definition set_know st v := {| s_reps := s_reps st; s_blobs := s_blobs st; s_dtr := s_dtr st; s_term := s_term st; s_gen := s_gen st; s_known := s_known st; s_nts := s_nts st; s_tasks := s_tasks st; s_pool := s_pool st; s_next := s_next st; s_know := v; s_ops := s_ops st; s_fin := s_fin st; s_done := s_done st; s_out := s_out st; s_acked := s_acked st; s_att := s_att st; s_nsynth := s_nsynth st |}.
+Definition set_ops st v := {| s_reps := s_reps st; s_blobs := s_blobs st; s_dtr := s_dtr st; s_term := s_term st; s_gen := s_gen st; s_known := s_known st; s_nts := s_nts st; s_tasks := s_tasks st; s_pool := s_pool st; s_next := s_next st; s_know := s_know st; s_ops := v; s_fin := s_fin st; s_done := s_done st; s_out := s_out st; s_acked := s_acked st; s_att := s_att st; s_nsynth := s_nsynth st |}.
+Definition set_fin st v := {| s_reps := s_reps st; s_blobs := s_blobs st; s_dtr := s_dtr st; s_term := s_term st; s_gen := s_gen st; s_known := s_known st; s_nts := s_nts st; s_tasks := s_tasks st; s_pool := s_pool st; s_next := s_next st; s_know := s_know st; s_ops := s_ops st; s_fin := v; s_done := s_done st; s_out := s_out st; s_acked := s_acked st; s_att := s_att st; s_nsynth := s_nsynth st |}.
+Definition set_done st v := {| s_reps := s_reps st; s_blobs := s_blobs st; s_dtr := s_dtr st; s_term := s_term st; s_gen := s_gen st; s_known := s_known st; s_nts := s_nts st; s_tasks := s_tasks st; s_pool := s_pool st; s_next := s_next st; s_know := s_know st; s_ops := s_ops st; s_fin := s_fin st; s_done := v; s_out := s_out st; s_acked := s_acked st; s_att := s_att st; s_nsynth := s_nsynth st |}.
+Definition set_out st v := {| s_reps := s_reps st; s_blobs := s_blobs st; s_dtr := s_dtr st; s_term := s_term st; s_gen := s_gen st; s_known := s_known st; s_nts := s_nts st; s_tasks := s_tasks st; s_pool := s_pool st; s_next := s_next st; s_know := s_know st; s_ops := s_ops st; s_fin := s_fin st; s_done := s_done st; s_out := v; s_acked := s_acked st; s_att := s_att st; s_nsynth := s_nsynth st |}.
+Definition set_acked st v := {| s_reps := s_reps st; s_blobs := s_blobs st; s_dtr := s_dtr st; s_term := s_term st; s_gen := s_gen st; s_known := s_known st; s_nts := s_nts st; s_tasks := s_tasks st; s_pool := s_pool st; s_next := s_next st; s_know := s_know st; s_ops := s_ops st; s_fin := s_fin st; s_done := s_done st; s_out := s_out st; s_acked := v; s_att := s_att st; s_nsynth := s_nsynth st |}.
+Definition set_att st v := {| s_reps := s_reps st; s_blobs := s_blobs st; s_dtr := s_dtr st; s_term := s_term st; s_gen := s_gen st; s_known := s_known st; s_nts := s_nts st; s_tasks := s_tasks st; s_pool := s_pool st; s_next := s_next st; s_know := s_know st; s_ops := s_ops st; s_fin := s_fin st; s_done := s_done st; s_out := s_out st; s_acked := s_acked st; s_att := v; s_nsynth := s_nsynth st |}.
+Definition set_nsynth st v := {| s_reps := s_reps st; s_blobs := s_blobs st; s_dtr := s_dtr st; s_term := s_term st; s_gen := s_gen st; s_known := s_known st; s_nts := s_nts st; s_tasks := s_tasks st; s_pool := s_pool st; s_next := s_next st; s_know := s_know st; s_ops := s_ops st; s_fin := s_fin st; s_done := s_done st; s_out := s_out st; s_acked := s_acked st; s_att := s_att st; s_nsynth := v |}.
 
 (* ------------------------------------------------------------------ tractserver (Store) *)
 Definition mkw (wid off len : Z) : wrec := {| w_id := wid; w_off := off; w_len := len |}.
@@ -221,7 +240,7 @@ Definition app_write (app : list wrec) (wid off len : Z) : list wrec :=
   if len <=? 0 then app else mkw wid off len :: app.
 
 (* Store.doWrite: openExisting; checkVersion (==); write *)
-Definition ts_write (reps : list (rkey * replica)) (ts tk ver wid off len : Z) : list (rkey * replica) * Z :=
+Definition ts_write (reps : list (rkey * replica)) (ts : Z) (tk : tkt) (ver wid off len : Z) : list (rkey * replica) * Z :=
   match rget reps (ts, tk) with
   | None => (reps, cl_ErrNoSuchTract)
   | Some r =>
@@ -231,7 +250,7 @@ Definition ts_write (reps : list (rkey * replica)) (ts tk ver wid off len : Z) :
   end.
 
 (* TSSrvHandler.CreateTract + Store.Create: HasID; doCreate at version 1; ErrAlreadyExists => doWrite at version 1 *)
-Definition ts_create (reps : list (rkey * replica)) (ts tsid tk wid off len : Z) : list (rkey * replica) * Z :=
+Definition ts_create (reps : list (rkey * replica)) (ts tsid : Z) (tk : tkt) (wid off len : Z) : list (rkey * replica) * Z :=
   if negb (ts =? tsid) then (reps, cl_ErrWrongTractserver)
   else match rget reps (ts, tk) with
        | None => (rset reps (ts, tk) {| r_ver := 1; r_app := app_write [] wid off len |}, cl_NoError)
@@ -239,7 +258,7 @@ Definition ts_create (reps : list (rkey * replica)) (ts tsid tk wid off len : Z)
        end.
 
 (* Store.Read: (class, number of bytes, runs) *)
-Definition ts_read (reps : list (rkey * replica)) (ts tk ver len off : Z) : Z * Z * list (Z * Z) :=
+Definition ts_read (reps : list (rkey * replica)) (ts : Z) (tk : tkt) (ver len off : Z) : Z * Z * list (Z * Z) :=
   match rget reps (ts, tk) with
   | None => (cl_ErrNoSuchTract, 0, [])
   | Some r =>
@@ -251,7 +270,7 @@ Definition ts_read (reps : list (rkey * replica)) (ts tk ver len off : Z) : Z * 
   end.
 
 (* TSCtlHandler.SetVersion + Store.SetVersion + bumpVersion *)
-Definition ts_setversion (reps : list (rkey * replica)) (ts tsid tk nv : Z) : list (rkey * replica) * Z :=
+Definition ts_setversion (reps : list (rkey * replica)) (ts tsid : Z) (tk : tkt) (nv : Z) : list (rkey * replica) * Z :=
   if negb (ts =? tsid) then (reps, cl_ErrWrongTractserver)
   else if nv <=? 1 then (reps, cl_ErrBadVersion)
   else match rget reps (ts, tk) with
@@ -263,7 +282,7 @@ Definition ts_setversion (reps : list (rkey * replica)) (ts tsid tk nv : Z) : li
        end.
 
 (* Store.pullTractOnce from one source *)
-Definition pull_once (reps : list (rkey * replica)) (nts ts tk ver src : Z) : list (rkey * replica) * Z :=
+Definition pull_once (reps : list (rkey * replica)) (nts ts : Z) (tk : tkt) (ver src : Z) : list (rkey * replica) * Z :=
   let '(reps1, stop) :=
     match rget reps (ts, tk) with
     | Some r => if ver <? r_ver r then (reps, true) else (rdel reps (ts, tk), false)
@@ -278,18 +297,29 @@ Definition pull_once (reps : list (rkey * replica)) (nts ts tk ver src : Z) : li
                    else (reps1, cl_ErrVersionMismatch)
        end.
 
-Fixpoint pull_loop (reps : list (rkey * replica)) (nts ts tk ver : Z) (srcs : list Z) (last : Z) : list (rkey * replica) * Z :=
+Fixpoint pull_loop (reps : list (rkey * replica)) (nts ts : Z) (tk : tkt) (ver : Z) (srcs : list Z) (last : Z) : list (rkey * replica) * Z :=
   match srcs with
   | [] => (reps, last)
   | s :: r => let '(reps', e) := pull_once reps nts ts tk ver s in
               if e =? cl_NoError then (reps', e) else pull_loop reps' nts ts tk ver r e
   end.
 
-Definition ts_pull (reps : list (rkey * replica)) (nts ts tsid tk ver : Z) (srcs : list Z) : list (rkey * replica) * Z :=
+Definition ts_pull (reps : list (rkey * replica)) (nts ts tsid : Z) (tk : tkt) (ver : Z) (srcs : list Z) : list (rkey * replica) * Z :=
   if negb (ts =? tsid) then (reps, cl_ErrWrongTractserver)
   else pull_loop reps nts ts tk ver srcs cl_NoError.
 
-Definition dump_replica (reps : list (rkey * replica)) (ts tk : Z) : list Z :=
+(* a tractserver crash in the middle of PullTract: the first source that answers gets the pull as far as
+   doCreate, which creates the local file and records its version BEFORE writing the data; the process
+   dies at the data write, so an empty copy that already carries the version stays behind *)
+Fixpoint pull_crash (reps : list (rkey * replica)) (nts ts : Z) (tk : tkt) (ver : Z) (srcs : list Z) : list (rkey * replica) :=
+  match srcs with
+  | [] => reps
+  | s :: r => let '(reps', e) := pull_once reps nts ts tk ver s in
+              if e =? cl_NoError then rset reps' (ts, tk) {| r_ver := ver; r_app := [] |}
+              else pull_crash reps' nts ts tk ver r
+  end.
+
+Definition dump_replica (reps : list (rkey * replica)) (ts : Z) (tk : tkt) : list Z :=
   match rget reps (ts, tk) with
   | None => [0]
   | Some r => let sz := app_len (r_app r) in [1; r_ver r; sz] ++ flat_runs (render (r_app r) 0 sz)
@@ -303,12 +333,12 @@ Definition change_tract (st : state) (term blob tract ver : Z) (hosts : list Z) 
        | None => (st, cl_ErrNoSuchBlob)
        | Some (_, nt) =>
            if nt <? tract then (st, cl_ErrNoSuchTract)
-           else match zget (s_dtr st) (tkey blob tract) with
+           else match tget (s_dtr st) (tkey blob tract) with
                 | None => (st, cl_ErrNoSuchTract)
                 | Some (dv, hs) =>
                     if negb (Z.of_nat (length hs) =? Z.of_nat (length hosts)) then (st, cl_ErrInvalidArgument)
                     else if negb (dv + 1 =? ver) then (st, cl_ErrConflictingState)
-                    else (set_dtr st (zset (s_dtr st) (tkey blob tract) (ver, hosts)), cl_NoError)
+                    else (set_dtr st (tset (s_dtr st) (tkey blob tract) (ver, hosts)), cl_NoError)
                 end
        end.
 
@@ -317,7 +347,7 @@ Definition known_of (st : state) (gen : Z) : list Z :=
 
 (* ------------------------------------------------------------------ pool helpers *)
 Definition issue (st : state) (r : rpc) (owner : Z) : state :=
-  let e := {| p_id := s_next st; p_rpc := r; p_st := 0; p_res := []; p_lose := false; p_auto := true; p_owner := owner |} in
+  let e := {| p_id := s_next st; p_rpc := r; p_st := 0; p_res := []; p_tr := []; p_lose := false; p_auto := true; p_owner := owner |} in
   set_next (set_pool st (s_pool st ++ [e])) (s_next st + 1).
 
 Definition issue_cur (st : state) (r : rpc) (owner : Z) : state :=
@@ -359,13 +389,13 @@ Definition finish_task (st : state) (t : task) (err : Z) : state :=
   let st1 := set_tasks st (del_task (s_tasks st) (t_op t)) in
   (* replies still outstanding lose their owner *)
   let st2 := set_pool st1 (map (fun e => if p_owner e =? t_op t
-                                         then {| p_id := p_id e; p_rpc := p_rpc e; p_st := p_st e; p_res := p_res e;
+                                         then {| p_id := p_id e; p_rpc := p_rpc e; p_st := p_st e; p_res := p_res e; p_tr := p_tr e;
                                                  p_lose := p_lose e; p_auto := p_auto e; p_owner := 0 |}
                                          else e) (s_pool st1)) in
   if t_rpc t =? 0 then set_fin st2 (s_fin st2 ++ [(t_op t, err)])
   else (* the FixVersion RPC's callee returned *)
     set_pool st2 (map (fun e => if p_id e =? t_rpc t
-                                then {| p_id := p_id e; p_rpc := p_rpc e; p_st := 2; p_res := [err];
+                                then {| p_id := p_id e; p_rpc := p_rpc e; p_st := 2; p_res := [err]; p_tr := p_tr e;
                                         p_lose := p_lose e; p_auto := p_auto e; p_owner := p_owner e |}
                                 else e) (s_pool st2)).
 
@@ -377,7 +407,7 @@ Definition activate (st : state) (t : task) : state :=
   | None => finish_task st t cl_ErrNoSuchBlob
   | Some (_, nt) =>
       if nt <=? t_tract t then finish_task st t cl_ErrNoSuchTract
-      else match zget (s_dtr st) (tkey (t_blob t) (t_tract t)) with
+      else match tget (s_dtr st) (tkey (t_blob t) (t_tract t)) with
            | None => finish_task st t cl_ErrNoSuchTract
            | Some (dv, hosts) =>
                if t_kind t =? 5 then
@@ -510,29 +540,25 @@ Definition set_op_fields (o : cop) succ acked reads : cop :=
      o_succ := succ; o_acked := acked; o_reads := reads |}.
 
 (* delivery of a reply to a CLIENT: what the client learns *)
-Definition client_learns (st : state) (r : rpc) (res : list Z) : state :=
+Definition mk_kent (cli blob : Z) (durable : bool) (acks : Z) (x : Z * Z * list (Z * Z)) : kent :=
+  let '(idx, ver, hs) := x in
+  {| ke_cli := cli; ke_tk := tkey blob idx; ke_ver := ver; ke_hosts := map fst hs;
+     ke_addr := map fst (filter (fun '(_, kn) => negb (kn =? 0)) hs); ke_durable := durable; ke_acks := acks |}.
+
+Definition client_learns (st : state) (r : rpc) (res : list Z) (tr : list (Z * Z * list (Z * Z))) : state :=
   match res with
   | [] => st
   | cls :: payload =>
       if k_kind r =? K_GetTracts then
-        match payload with
-        | nack :: trs =>
-            if negb (cls =? cl_NoError) then st
-            else set_know st (map (fun '(idx, ver, hs) =>
-                                     {| ke_cli := k_cli r; ke_tk := tkey (k_blob r) idx; ke_ver := ver; ke_hosts := map fst hs;
-                                        ke_addr := map fst (filter (fun '(_, kn) => negb (kn =? 0)) hs);
-                                        ke_durable := true; ke_acks := nack |}) (decode_tracts true trs) ++ s_know st)
-        | [] => st
-        end
+        if negb (cls =? cl_NoError) then st
+        else set_know st (map (mk_kent (k_cli r) (k_blob r) true (hd 0 payload)) tr ++ s_know st)
       else if k_kind r =? K_ExtendBlob then
         if negb (cls =? cl_NoError) then st
-        else set_know st (map (fun '(idx, ver, hs) =>
-                                 {| ke_cli := k_cli r; ke_tk := tkey (k_blob r) idx; ke_ver := ver; ke_hosts := map fst hs;
-                                    ke_addr := map fst hs; ke_durable := false; ke_acks := 0 |}) (decode_tracts true payload) ++ s_know st)
+        else set_know st (map (mk_kent (k_cli r) (k_blob r) false 0) tr ++ s_know st)
       else match op_of_client (s_ops st) (k_cli r) with
            | None => st
            | Some o =>
-               if ((k_kind r =? K_Write) || (k_kind r =? K_Create)) && (cls =? cl_NoError) && (k_wid r =? o_wid o) then
+               if ((k_kind r =? K_Write) || (k_kind r =? K_Create)) && (cls =? cl_NoError) && ((k_wid r =? o_wid o) || (k_len r =? 0)) then
                  let v := if k_kind r =? K_Create then 1 else k_ver r in
                  set_ops st (upd_op (s_ops st)
                    (set_op_fields o ((tkey (k_blob r) (k_tract r), k_ts r, v, k_off r, k_len r) :: o_succ o) (o_acked o) (o_reads o)))
@@ -559,7 +585,7 @@ Definition resume (st : state) (e : pent) (delivered : bool) (hint : list Z) : s
     let st2 := if k_kind r =? K_FixVersion
                then set_done st1 (s_done st1 ++ [(r, if delivered then hd cl_ErrRPC (p_res e) else cl_ErrRPC)])
                else st1 in
-    if delivered then client_learns st2 r (p_res e) else st2.
+    if delivered then client_learns st2 r (p_res e) (p_tr e) else st2.
 
 (* deliver every executed auto-send reply (a task that finishes may complete the FixVersion RPC it serves) *)
 Fixpoint flush (fuel : nat) (st : state) (hint : list Z) : state :=
@@ -575,16 +601,6 @@ Fixpoint flush (fuel : nat) (st : state) (hint : list Z) : state :=
 (* ------------------------------------------------------------------ executing an RPC at its callee *)
 Definition aux_nth (r : rpc) (i : nat) : Z := nth i (k_aux r) 0.
 
-Definition enc_tracts (st : state) (gen blob start stop : Z) : list Z :=
-  let known := known_of st gen in
-  let idxs := map (fun i => start + Z.of_nat i) (seq 0 (Z.to_nat (stop - start))) in
-  Z.of_nat (length idxs) ::
-  flat_map (fun idx => match zget (s_dtr st) (tkey blob idx) with
-                       | Some (dv, hs) => [idx; dv; Z.of_nat (length hs)] ++
-                                          flat_map (fun h => [h; if zmem h known then 1 else 0]) (fold_right insert_sorted [] hs)
-                       | None => [idx; 0; 0]
-                       end) idxs.
-
 (* Curator.ackExtend -> StateHandler.ExtendBlob -> ExtendBlobCommand.apply *)
 Definition ack_extend (st : state) (blob : Z) (trs : list (Z * Z * list (Z * Z))) : state * Z :=
   match trs with
@@ -597,69 +613,89 @@ Definition ack_extend (st : state) (blob : Z) (trs : list (Z * Z * list (Z * Z))
                if negb (first =? nt) then (st, cl_ErrExtendConflict)
                else if negb (forallb (fun '(_, _, hs) => Z.of_nat (length hs) =? repl) trs) then (st, cl_ErrInvalidArgument)
                else
-                 let dtr' := fst (fold_left (fun '(m, i) '(_, _, hs) => (zset m (tkey blob i) (1, map fst hs), i + 1)) trs (s_dtr st, nt)) in
+                 let dtr' := fst (fold_left (fun '(m, i) '(_, _, hs) => (tset m (tkey blob i) (1, map fst hs), i + 1)) trs (s_dtr st, nt)) in
                  (set_blobs (set_dtr st dtr') (zset (s_blobs st) blob (repl, nt + Z.of_nat (length trs))), cl_NoError)
            end
   end.
 
 (* returns the new state and the reply (class :: payload); 'oracle' carries the ExtendBlob placement *)
-Definition exec_rpc (st : state) (e : pent) (oracle : list Z) : state * list Z :=
+Definition tracts_of_range (st : state) (gen blob start stop : Z) : list (Z * Z * list (Z * Z)) :=
+  let known := known_of st gen in
+  map (fun i => let idx := start + Z.of_nat i in
+                match tget (s_dtr st) (tkey blob idx) with
+                | Some (dv, hs) => (idx, dv, map (fun h => (h, if zmem h known then 1 else 0)) (fold_right insert_sorted [] hs))
+                | None => (idx, 0, [])
+                end) (seq 0 (Z.to_nat (stop - start))).
+
+Definition enc_tr (trs : list (Z * Z * list (Z * Z))) : list Z :=
+  Z.of_nat (length trs) ::
+  flat_map (fun '(idx, ver, hs) => [idx; ver; Z.of_nat (length hs)] ++ flat_map (fun '(h, kn) => [h; kn]) hs) trs.
+
+(* the part of exec_rpc that answers a curator-bound client RPC with a tract list *)
+Definition exec_gettracts (st : state) (r : rpc) : list Z * list (Z * Z * list (Z * Z)) :=
+  let start := nth 0 (k_aux r) 0 in let stop := nth 1 (k_aux r) 0 in
+  match zget (s_blobs st) (k_blob r) with
+  | None => ([cl_ErrNoSuchBlob], [])
+  | Some (_, nt) =>
+      if (start <? 0) || (stop <? start) then ([cl_ErrInvalidArgument], [])
+      else if start =? stop then ([cl_NoError; Z.of_nat (length (s_acked st)); 0], [])
+      else if nt <=? start then ([cl_ErrNoSuchTract], [])
+      else let trs := tracts_of_range st (s_gen st) (k_blob r) start (Z.min stop nt) in
+           (cl_NoError :: Z.of_nat (length (s_acked st)) :: enc_tr trs, trs)
+  end.
+
+(* Curator.extend: nothing durable; placement is an oracle input, validated *)
+Definition exec_extend (st : state) (r : rpc) (oracle : list Z) : list Z * list (Z * Z * list (Z * Z)) :=
+  match zget (s_blobs st) (k_blob r) with
+  | None => ([cl_ErrNoSuchBlob], [])
+  | Some (repl, nt) =>
+      let want := nth 0 (k_aux r) 0 - nt in
+      if want <=? 0 then ([cl_NoError; 0], [])
+      else if 20 <? want then ([cl_ErrTooBig], [])
+      else
+        let known := known_of st (s_gen st) in
+        if Z.of_nat (length known) <? repl then ([cl_ErrAllocHost], [])
+        else
+          let trs := decode_tracts true oracle in
+          let okshape := (Z.of_nat (length trs) =? want) &&
+                         forallb (fun '(idx, ver, hs) => (ver =? 1) && (Z.of_nat (length hs) =? repl) &&
+                                                         subset (map fst hs) known && distinct (map fst hs) &&
+                                                         forallb (fun '(_, kn) => kn =? 1) hs) trs &&
+                         list_eqb (map (fun '(idx, _, _) => idx) trs) (map (fun i => nt + Z.of_nat i) (seq 0 (Z.to_nat want))) in
+          if okshape then (cl_NoError :: oracle, trs) else ([-4], [])
+  end.
+
+(* returns the new state, the reply (class :: payload) and, for GetTracts/ExtendBlob, the tract list of the reply *)
+Definition exec_rpc (st : state) (e : pent) (oracle : list Z) : state * list Z * list (Z * Z * list (Z * Z)) :=
   let r := p_rpc e in
   let tk := tkey (k_blob r) (k_tract r) in
   let k := k_kind r in
   if k =? K_Write then
-    let '(reps, c) := ts_write (s_reps st) (k_ts r) tk (k_ver r) (k_wid r) (k_off r) (k_len r) in (set_reps st reps, [c])
+    let '(reps, c) := ts_write (s_reps st) (k_ts r) tk (k_ver r) (k_wid r) (k_off r) (k_len r) in (set_reps st reps, [c], [])
   else if k =? K_Create then
-    let '(reps, c) := ts_create (s_reps st) (k_ts r) (aux_nth r 0) tk (k_wid r) (k_off r) (k_len r) in (set_reps st reps, [c])
+    let '(reps, c) := ts_create (s_reps st) (k_ts r) (aux_nth r 0) tk (k_wid r) (k_off r) (k_len r) in (set_reps st reps, [c], [])
   else if k =? K_Read then
     let '(c, n, runs) := ts_read (s_reps st) (k_ts r) tk (k_ver r) (k_len r) (k_off r) in
-    (st, if (c =? cl_NoError) || (c =? cl_ErrEOF) then c :: n :: flat_runs runs else [c])
+    (st, (if (c =? cl_NoError) || (c =? cl_ErrEOF) then c :: n :: flat_runs runs else [c]), [])
   else if k =? K_SetVersion then
-    let '(reps, c) := ts_setversion (s_reps st) (k_ts r) (aux_nth r 0) tk (k_ver r) in (set_reps st reps, [c])
+    let '(reps, c) := ts_setversion (s_reps st) (k_ts r) (aux_nth r 0) tk (k_ver r) in (set_reps st reps, [c], [])
   else if k =? K_PullTract then
-    let '(reps, c) := ts_pull (s_reps st) (s_nts st) (k_ts r) (aux_nth r 0) tk (k_ver r) (tl (k_aux r)) in (set_reps st reps, [c])
+    let '(reps, c) := ts_pull (s_reps st) (s_nts st) (k_ts r) (aux_nth r 0) tk (k_ver r) (tl (k_aux r)) in (set_reps st reps, [c], [])
   else if k =? K_StatBlob then
     match zget (s_blobs st) (k_blob r) with
-    | Some (_, nt) => (st, [cl_NoError; nt])
-    | None => (st, [cl_ErrNoSuchBlob])
+    | Some (_, nt) => (st, [cl_NoError; nt], [])
+    | None => (st, [cl_ErrNoSuchBlob], [])
     end
-  else if k =? K_GetTracts then
-    let start := aux_nth r 0 in let stop := aux_nth r 1 in
-    match zget (s_blobs st) (k_blob r) with
-    | None => (st, [cl_ErrNoSuchBlob])
-    | Some (_, nt) =>
-        if (start <? 0) || (stop <? start) then (st, [cl_ErrInvalidArgument])
-        else if start =? stop then (st, [cl_NoError; Z.of_nat (length (s_acked st)); 0])
-        else if nt <=? start then (st, [cl_ErrNoSuchTract])
-        else (st, cl_NoError :: Z.of_nat (length (s_acked st)) :: enc_tracts st (s_gen st) (k_blob r) start (Z.min stop nt))
-    end
-  else if k =? K_ExtendBlob then
-    (* Curator.extend: nothing durable; placement is an oracle input, validated *)
-    match zget (s_blobs st) (k_blob r) with
-    | None => (st, [cl_ErrNoSuchBlob])
-    | Some (repl, nt) =>
-        let want := aux_nth r 0 - nt in
-        if want <=? 0 then (st, [cl_NoError; 0])
-        else if 20 <? want then (st, [cl_ErrTooBig])
-        else
-          let known := known_of st (s_gen st) in
-          if Z.of_nat (length known) <? repl then (st, [cl_ErrAllocHost])
-          else
-            let trs := decode_tracts true oracle in
-            let okshape := (Z.of_nat (length trs) =? want) &&
-                           forallb (fun '(idx, ver, hs) => (ver =? 1) && (Z.of_nat (length hs) =? repl) &&
-                                                           subset (map fst hs) known && distinct (map fst hs)) trs &&
-                           list_eqb (map (fun '(idx, _, _) => idx) trs) (map (fun i => nt + Z.of_nat i) (seq 0 (Z.to_nat want))) in
-            if okshape then (st, cl_NoError :: oracle) else (st, [-4])
-    end
+  else if k =? K_GetTracts then let '(res, trs) := exec_gettracts st r in (st, res, trs)
+  else if k =? K_ExtendBlob then let '(res, trs) := exec_extend st r oracle in (st, res, trs)
   else if k =? K_AckExtend then
-    let '(st', c) := ack_extend st (k_blob r) (decode_tracts false (k_aux r)) in (st', [c])
+    let '(st', c) := ack_extend st (k_blob r) (decode_tracts false (k_aux r)) in (st', [c], [])
   else if k =? K_ReportBadTS then
-    (st, [if zmem (aux_nth r 0) (known_of st (s_gen st)) then cl_NoError else cl_ErrHostNotExist])
-  else (st, [-1]).
+    (st, [if zmem (aux_nth r 0) (known_of st (s_gen st)) then cl_NoError else cl_ErrHostNotExist], [])
+  else (st, [-1], []).
 
-Definition set_pent (e : pent) (stt : Z) (res : list Z) (lose auto : bool) : pent :=
-  {| p_id := p_id e; p_rpc := p_rpc e; p_st := stt; p_res := res; p_lose := lose; p_auto := auto; p_owner := p_owner e |}.
+Definition set_pent (e : pent) (stt : Z) (res : list Z) (tr : list (Z * Z * list (Z * Z))) (lose auto : bool) : pent :=
+  {| p_id := p_id e; p_rpc := p_rpc e; p_st := stt; p_res := res; p_tr := tr; p_lose := lose; p_auto := auto; p_owner := p_owner e |}.
 
 (* ------------------------------------------------------------------ wire decoding *)
 Definition take (n : Z) (l : list Z) : list Z * list Z := (firstn (Z.to_nat n) l, skipn (Z.to_nat n) l).
@@ -681,13 +717,6 @@ Definition is_ts_kind (k : Z) : bool := (K_Create <=? k) && (k <=? K_PullTract).
 (* ------------------------------------------------------------------ client rules (verdict codes) *)
 Definition V_OK := 1.  Definition V_ISSUE := 2.  Definition V_ACK := 3.  Definition V_READ := 4.  Definition V_NOOP := 5.
 
-Definition issue_allowed (st : state) (r : rpc) : bool :=
-  if is_ts_kind (k_kind r) then
-    let v := if k_kind r =? K_Create then 1 else k_ver r in
-    existsb (fun ke => (ke_cli ke =? k_cli r) && (ke_tk ke =? tkey (k_blob r) (k_tract r)) && (ke_ver ke =? v) &&
-                       zmem (k_ts r) (ke_addr ke)) (s_know st)
-  else true.
-
 Definition TL := cl_TractLength.
 
 Definition tracts_of (off len : Z) : list Z :=
@@ -696,9 +725,51 @@ Definition tracts_of (off len : Z) : list Z :=
 Definition seg_of (off len j : Z) : Z * Z :=   (* (offset in tract, length) of the part of [off,off+len) in tract j *)
   let lo := Z.max off (j * TL) in let hi := Z.min (off + len) ((j + 1) * TL) in (lo - j * TL, hi - lo).
 
-Definition succ_mem (x : Z * Z * Z * Z * Z) (l : list (Z * Z * Z * Z * Z)) : bool :=
+Definition succ_mem (x : tkt * Z * Z * Z * Z) (l : list (tkt * Z * Z * Z * Z)) : bool :=
   existsb (fun y => let '(a, b, c, d, e) := x in let '(a', b', c', d', e') := y in
-                    (a =? a') && (b =? b') && (c =? c') && (d =? d') && (e =? e')) l.
+                    tk_eqb a a' && (b =? b') && (c =? c') && (d =? d') && (e =? e')) l.
+
+(* V_ISSUE: only clients issue (non-negative id) and only client RPC kinds; a data RPC names a (tract,
+   version, host) of an entry delivered to that client; a Write or Create additionally carries the
+   client's current write and exactly that write's part of the tract (or is an empty create of a hole
+   tract); an AckExtend acknowledges exactly tract lists it was handed by ExtendBlob, after every
+   named host accepted the create *)
+Definition client_kind (k : Z) : bool :=
+  ((K_StatBlob <=? k) && (k <=? K_ReportBadTS)) || ((K_Create <=? k) && (k <=? K_StatTract)).
+
+Definition created_on (o : cop) (tk : tkt) (h : Z) : bool :=
+  existsb (fun '(a, b, c, _, _) => tk_eqb a tk && (b =? h) && (c =? 1)) (o_succ o).
+
+Definition ackext_allowed (st : state) (r : rpc) : bool :=
+  match op_of_client (s_ops st) (k_cli r) with
+  | None => false
+  | Some o =>
+      (o_kind o =? 3) && (o_blob o =? k_blob r) &&
+      forallb (fun '(idx, ver, hs) =>
+                 let tk := tkey (k_blob r) idx in
+                 existsb (fun ke => (ke_cli ke =? k_cli r) && tk_eqb (ke_tk ke) tk && (ke_ver ke =? 1) &&
+                                    negb (ke_durable ke) && list_eqb (ke_hosts ke) (map fst hs)) (s_know st) &&
+                 forallb (fun '(h, _) => created_on o tk h) hs)
+              (decode_tracts false (k_aux r))
+  end.
+
+Definition issue_allowed (st : state) (r : rpc) : bool :=
+  (0 <=? k_cli r) && client_kind (k_kind r) &&
+  (if is_ts_kind (k_kind r) then
+    let v := if k_kind r =? K_Create then 1 else k_ver r in
+    existsb (fun ke => (ke_cli ke =? k_cli r) && tk_eqb (ke_tk ke) (tkey (k_blob r) (k_tract r)) && (ke_ver ke =? v) &&
+                       zmem (k_ts r) (ke_addr ke)) (s_know st) &&
+    (if (k_kind r =? K_Write) || (k_kind r =? K_Create) then
+       match op_of_client (s_ops st) (k_cli r) with
+       | Some o => (o_kind o =? 3) && (o_blob o =? k_blob r) &&
+                   ((k_len r =? 0) ||
+                    ((o_wid o =? k_wid r) && (fst (seg_of (o_off o) (o_len o) (k_tract r)) =? k_off r) &&
+                     (snd (seg_of (o_off o) (o_len o) (k_tract r)) =? k_len r)))
+       | None => false
+       end
+     else true)
+   else if k_kind r =? K_AckExtend then ackext_allowed st r
+   else true).
 
 (* V_ACK: every tract of the write has ONE delivered entry all of whose hosts accepted the write at the
    entry's version, and the tract is known durable (entry from GetTracts, or AckExtend delivered OK) *)
@@ -706,10 +777,10 @@ Definition ack_allowed (st : state) (o : cop) : bool :=
   forallb (fun j =>
              let tk := tkey (o_blob o) j in
              let '(toff, tlen) := seg_of (o_off o) (o_len o) j in
-             existsb (fun ke => (ke_cli ke =? o_cli o) && (ke_tk ke =? tk) &&
+             existsb (fun ke => (ke_cli ke =? o_cli o) && tk_eqb (ke_tk ke) tk &&
                                 negb (Z.of_nat (length (ke_hosts ke)) =? 0) &&
                                 forallb (fun h => succ_mem (tk, h, ke_ver ke, toff, tlen) (o_succ o)) (ke_hosts ke) &&
-                                (ke_durable ke || zmem tk (o_acked o))) (s_know st))
+                                (ke_durable ke || tmem tk (o_acked o))) (s_know st))
           (tracts_of (o_off o) (o_len o)).
 
 Fixpoint clip (l : list (Z * Z)) (L : Z) : list (Z * Z) * Z :=
@@ -728,7 +799,7 @@ Definition read_expected (o : cop) (n : Z) : option (list (Z * Z)) :=
                 | None => None
                 | Some rest =>
                     let '(toff, tlen) := seg_of (o_off o) n j in
-                    match find (fun '(tk, roff, _, _) => (tk =? tkey (o_blob o) j) && (roff =? toff)) (o_reads o) with
+                    match find (fun '(tk, roff, _, _) => tk_eqb tk (tkey (o_blob o) j) && (roff =? toff)) (o_reads o) with
                     | None => None
                     | Some (_, _, _, runs) => let '(c, rem) := clip runs tlen in Some (c ++ [(rem, 0)] ++ rest)
                     end
@@ -746,137 +817,258 @@ Definition new_task (op kind gen term blob tract : Z) (bad : list Z) (cliver bad
   {| t_op := op; t_kind := kind; t_gen := gen; t_term := term; t_blob := blob; t_tract := tract; t_phase := 0;
      t_dv := 0; t_ok := []; t_bad := bad; t_new := []; t_wait := 0; t_cliver := cliver; t_badts := badts; t_rpc := rpcid |}.
 
+(* code 7: execute (or fail) a parked RPC *)
+Definition step_exec (st : state) (mode : Z) (r : list Z) : state * list Z :=
+  match parse_rpc r with
+  | None => (st, [-1])
+  | Some (rp, r1) =>
+      match r1 with
+      | nh :: r2 =>
+          let '(place, r3) := take nh r2 in
+          let dur := match r3 with nd :: r4 => fst (take nd r4) | [] => [] end in
+          let hint := place ++ [-1] ++ dur in
+          match find_pent (s_pool st) rp 0 with
+          | None => (st, [-2])
+          | Some e =>
+              let dump s := if is_ts_kind (k_kind rp) then dump_replica (s_reps s) (k_ts rp) (tkey (k_blob rp) (k_tract rp)) else [] in
+              if mode =? 4 then
+                let st1 := flush 8 (resume st e false hint) hint in
+                (st1, [0] ++ dump st1 ++ out_section st1)
+              else if mode =? 6 then
+                if negb (k_kind rp =? K_PullTract) then (st, [-5])
+                else
+                  let reps' := if k_ts rp =? aux_nth rp 0
+                               then pull_crash (s_reps st) (s_nts st) (k_ts rp) (tkey (k_blob rp) (k_tract rp)) (k_ver rp) (tl (k_aux rp))
+                               else s_reps st in
+                  let st1 := set_reps st reps' in
+                  (* the caller sees an RPC error; the server restarts: everything parked at it fails *)
+                  let st2 := flush 8 (resume st1 e false hint) hint in
+                  let victims := filter (fun x => (p_st x =? 0) && (k_ts (p_rpc x) =? k_ts rp)) (s_pool st2) in
+                  let st3 := fold_left (fun s x => flush 8 (resume s x false []) []) victims st2 in
+                  (st3, [1] ++ dump st3 ++ out_section st3)
+              else if k_kind rp =? K_FixVersion then
+                let sid := - (s_nsynth st + 1) in
+                let st1 := set_nsynth (set_pool st (pool_update (s_pool st) (set_pent e 1 [] [] (mode =? 2) (negb (mode =? 5))))) (s_nsynth st + 1) in
+                let st2 := start_task st1 (new_task sid 6 (s_gen st) (s_term st) (k_blob rp) (k_tract rp) [] (k_ver rp) (aux_nth rp 0) (p_id e)) in
+                let res := match find (fun x => p_id x =? p_id e) (s_pool st2) with
+                           | Some x => if p_st x =? 2 then 1 :: p_res x else [0]
+                           | None => [0]
+                           end in
+                let st3 := flush 8 st2 hint in
+                (st3, res ++ out_section st3)
+              else
+                let '(st1, res, tr) := exec_rpc st e place in
+                let st1' := if mode =? 3 then fst (fst (exec_rpc st1 e place)) else st1 in
+                let st2 := set_pool st1' (pool_update (s_pool st1') (set_pent e 2 res tr (mode =? 2) (negb (mode =? 5)))) in
+                let st3 := flush 8 st2 hint in
+                (st3, [1] ++ res ++ dump st3 ++ out_section st3)
+          end
+      | [] => (st, [-1])
+      end
+  end.
+
+(* code 8: deliver (or drop) the reply of an executed RPC *)
+Definition step_reply (st : state) (lose : Z) (r : list Z) : state * list Z :=
+  match parse_rpc r with
+  | None => (st, [-1])
+  | Some (rp, r1) =>
+      let hint := match r1 with
+                  | nh :: r2 => let '(place, r3) := take nh r2 in
+                                place ++ [-1] ++ match r3 with nd :: r4 => fst (take nd r4) | [] => [] end
+                  | [] => []
+                  end in
+      match find_pent (s_pool st) rp 2 with
+      | None => (st, [-2])
+      | Some e => let st1 := flush 8 (resume st e (lose =? 0) hint) hint in (st1, out_section st1)
+      end
+  end.
+
+Definition step_restart (st : state) (ts : Z) : state * list Z :=
+  let victims := filter (fun e => (p_st e =? 0) && (k_ts (p_rpc e) =? ts)) (s_pool st) in
+  let st1 := fold_left (fun s e => flush 8 (resume s e false []) []) victims st in
+  (st1, out_section st1).
+
+Definition step_probe (st : state) (blob tract dv dt : Z) : state * list Z :=
+  match tget (s_dtr st) (tkey blob tract) with
+  | None => (st, [-1])
+  | Some (ver, hosts) =>
+      if (dv =? 1) && (dt =? 0) then (st, [-1])
+      else let '(st1, c) := change_tract st (s_term st - dt) blob tract (ver + dv) hosts in (st1, [c])
+  end.
+
+Definition step_issue (st : state) (r : list Z) : state * list Z :=
+  match parse_rpc r with
+  | None => (st, [-1])
+  | Some (rp, _) => if issue_allowed st rp then (issue st rp 0, [777; V_OK]) else (st, [777; V_ISSUE])
+  end.
+
+Definition step_finclient (st : state) (op n cls : Z) (runs : list Z) : state * list Z :=
+  match find_op (s_ops st) op with
+  | None => (st, [777; V_NOOP])
+  | Some o =>
+      let st1 := set_ops st (del_op (s_ops st) op) in
+      if o_kind o =? 3 then
+        if (cls =? cl_NoError) && (n =? o_len o) then
+          if ack_allowed st o
+          then (set_acked st1 ((o_blob o, o_wid o, mkw (o_wid o) (o_off o) (o_len o)) :: s_acked st1), [777; V_OK])
+          else (st1, [777; V_ACK])
+        else (st1, [777; V_OK])
+      else
+        if (cls =? cl_NoError) || (cls =? cl_ErrEOF) then
+          match read_expected o n with
+          | None => (st1, [777; V_READ])
+          | Some exp => if runs_eqb (merge_runs exp) (merge_runs (pairs (tl runs))) then (st1, [777; V_OK]) else (st1, [777; V_READ])
+          end
+        else (st1, [777; V_OK])
+  end.
+
+Fixpoint drop_done (l : list (rpc * Z)) (rp : rpc) : list (rpc * Z) :=
+  match l with
+  | [] => []
+  | (x, c') :: l' => if rpc_eqb x rp then l' else (x, c') :: drop_done l' rp
+  end.
+
+Definition step_rpcdone (st : state) (r : list Z) : state * list Z :=
+  match parse_rpc r with
+  | None => (st, [-1])
+  | Some (rp, _) =>
+      match find (fun '(x, _) => rpc_eqb x rp) (s_done st) with
+      | Some (_, c) => (set_done st (drop_done (s_done st) rp), [c])
+      | None => (st, [-3])
+      end
+  end.
+
+(* code 17: a curator-side RPC that no task owns (the harness probes the tractserver's version rules with
+   requests that must be rejected); only SetVersion and PullTract, only from the curator side *)
+Definition step_inject (st : state) (r : list Z) : state * list Z :=
+  match parse_rpc r with
+  | None => (st, [-1])
+  | Some (rp, _) =>
+      if (k_cli rp <? 0) && ((k_kind rp =? K_SetVersion) || (k_kind rp =? K_PullTract))
+      then (issue st rp 0, []) else (st, [-1])
+  end.
+
 Definition step (st0 : state) (ev : list Z) : state * list Z :=
   let st := set_out st0 [] in
   match ev with
-  | 1 :: nts :: _ =>
-      (set_term_gen (set_nts st nts) (s_term st) (s_gen st)
-                    (zset (s_known st) (s_gen st) (map (fun i => Z.of_nat i + 1) (seq 0 (Z.to_nat nts)))), [])
-  | [2; blob; repl] => (set_blobs st (zset (s_blobs st) blob (repl, 0)), [])
-  | [3; op; cli; blob; off; len; wid] =>
-      (set_ops st (s_ops st ++ [{| o_id := op; o_kind := 3; o_cli := cli; o_blob := blob; o_off := off; o_len := len; o_wid := wid;
-                                   o_succ := []; o_acked := []; o_reads := [] |}]), [])
-  | [4; op; cli; blob; off; len] =>
-      (set_ops st (s_ops st ++ [{| o_id := op; o_kind := 4; o_cli := cli; o_blob := blob; o_off := off; o_len := len; o_wid := 0;
-                                   o_succ := []; o_acked := []; o_reads := [] |}]), [])
-  | 5 :: op :: _ :: blob :: tract :: nbad :: r =>
-      let '(bad, _) := take nbad r in
-      let st1 := start_task st (new_task op 5 (s_gen st) (s_term st) blob tract bad 0 0 0) in
-      let st2 := flush 8 st1 [] in
-      (st2, out_section st2)
-  | [6; op; _; blob; tract; ver; badts] =>
-      let st1 := start_task st (new_task op 6 (s_gen st) (s_term st) blob tract [] ver badts 0) in
-      let st2 := flush 8 st1 [] in
-      (st2, out_section st2)
-  | 7 :: mode :: r =>
-      match parse_rpc r with
-      | None => (st, [-1])
-      | Some (rp, r1) =>
-          match r1 with
-          | nh :: r2 =>
-              let '(place, r3) := take nh r2 in
-              let dur := match r3 with nd :: r4 => fst (take nd r4) | [] => [] end in
-              let hint := place ++ [-1] ++ dur in
-              match find_pent (s_pool st) rp 0 with
-              | None => (st, [-2])
-              | Some e =>
-                  let dump s := if is_ts_kind (k_kind rp) then dump_replica (s_reps s) (k_ts rp) (tkey (k_blob rp) (k_tract rp)) else [] in
-                  if mode =? 4 then
-                    let st1 := flush 8 (resume st e false hint) hint in
-                    (st1, [0] ++ dump st1 ++ out_section st1)
-                  else if k_kind rp =? K_FixVersion then
-                    let sid := - (s_nsynth st + 1) in
-                    let st1 := set_nsynth (set_pool st (pool_update (s_pool st) (set_pent e 1 [] (mode =? 2) (negb (mode =? 5))))) (s_nsynth st + 1) in
-                    let st2 := start_task st1 (new_task sid 6 (s_gen st) (s_term st) (k_blob rp) (k_tract rp) [] (k_ver rp) (aux_nth rp 0) (p_id e)) in
-                    let res := match find (fun x => p_id x =? p_id e) (s_pool st2) with
-                               | Some x => if p_st x =? 2 then 1 :: p_res x else [0]
-                               | None => [0]
-                               end in
-                    let st3 := flush 8 st2 hint in
-                    (st3, res ++ out_section st3)
-                  else
-                    let '(st1, res) := exec_rpc st e place in
-                    let st1' := if mode =? 3 then fst (exec_rpc st1 e place) else st1 in
-                    let st2 := set_pool st1' (pool_update (s_pool st1') (set_pent e 2 res (mode =? 2) (negb (mode =? 5)))) in
-                    let st3 := flush 8 st2 hint in
-                    (st3, [1] ++ res ++ dump st3 ++ out_section st3)
-              end
-          | [] => (st, [-1])
-          end
-      end
-  | 8 :: lose :: r =>
-      match parse_rpc r with
-      | None => (st, [-1])
-      | Some (rp, r1) =>
-          let hint := match r1 with
-                      | nh :: r2 => let '(place, r3) := take nh r2 in
-                                    place ++ [-1] ++ match r3 with nd :: r4 => fst (take nd r4) | [] => [] end
-                      | [] => []
-                      end in
-          match find_pent (s_pool st) rp 2 with
-          | None => (st, [-2])
-          | Some e => let st1 := flush 8 (resume st e (lose =? 0) hint) hint in (st1, out_section st1)
-          end
-      end
-  | [9; ts] =>
-      let victims := filter (fun e => (p_st e =? 0) && (k_ts (p_rpc e) =? ts)) (s_pool st) in
-      let st1 := fold_left (fun s e => flush 8 (resume s e false []) []) victims st in
-      (st1, out_section st1)
-  | [10] => (set_term_gen st (s_term st + 1) (s_gen st + 1) (s_known st), [])
-  | [11; ts] =>
-      let k := known_of st (s_gen st) in
-      (set_term_gen st (s_term st) (s_gen st) (zset (s_known st) (s_gen st) (if zmem ts k then k else k ++ [ts])), [])
-  | [12; blob; tract; dv; dt] =>
-      match zget (s_dtr st) (tkey blob tract) with
-      | None => (st, [-1])
-      | Some (ver, hosts) =>
-          if (dv =? 1) && (dt =? 0) then (st, [-1])
-          else let '(st1, c) := change_tract st (s_term st - dt) blob tract (ver + dv) hosts in (st1, [c])
-      end
-  | 13 :: r =>
-      match parse_rpc r with
-      | None => (st, [-1])
-      | Some (rp, _) =>
-          if issue_allowed st rp then (issue st rp 0, [777; V_OK]) else (st, [777; V_ISSUE])
-      end
-  | 14 :: op :: n :: cls :: runs =>
-      match find_op (s_ops st) op with
-      | None => (st, [777; V_NOOP])
-      | Some o =>
-          let st1 := set_ops st (del_op (s_ops st) op) in
-          if o_kind o =? 3 then
-            if (cls =? cl_NoError) && (n =? o_len o) then
-              if ack_allowed st o
-              then (set_acked st1 ((o_blob o, o_wid o, mkw (o_wid o) (o_off o) (o_len o)) :: s_acked st1), [777; V_OK])
-              else (st1, [777; V_ACK])
-            else (st1, [777; V_OK])
-          else
-            if (cls =? cl_NoError) || (cls =? cl_ErrEOF) then
-              match read_expected o n with
-              | None => (st1, [777; V_READ])
-              | Some exp => if runs_eqb (merge_runs exp) (merge_runs (pairs (tl runs))) then (st1, [777; V_OK]) else (st1, [777; V_READ])
-              end
-            else (st1, [777; V_OK])
-      end
-  | [15; op] =>
-      match zget (s_fin st) op with
-      | Some c => (set_fin st (zdel (s_fin st) op), [c])
-      | None => (st, [-3])
-      end
-  | 16 :: r =>
-      match parse_rpc r with
-      | None => (st, [-1])
-      | Some (rp, _) =>
-          match find (fun '(x, _) => rpc_eqb x rp) (s_done st) with
-          | Some (_, c) =>
-              (set_done st ((fix drop (l : list (rpc * Z)) := match l with
-                                                              | [] => []
-                                                              | (x, c') :: l' => if rpc_eqb x rp then l' else (x, c') :: drop l'
-                                                              end) (s_done st)), [c])
-          | None => (st, [-3])
-          end
-      end
-  | _ => (st, [-1])
+  | [] => (st, [-1])
+  | c :: a =>
+      if c =? 1 then
+        match a with
+        | nts :: _ => (set_term_gen (set_nts st nts) (s_term st) (s_gen st)
+                         (zset (s_known st) (s_gen st) (map (fun i => Z.of_nat i + 1) (seq 0 (Z.to_nat nts)))), [])
+        | _ => (st, [-1])
+        end
+      else if c =? 2 then
+        match a with
+        | [blob; repl] => match zget (s_blobs st) blob with
+                          | Some _ => (st, [-1])     (* blob ids are fresh *)
+                          | None => (set_blobs st (zset (s_blobs st) blob (repl, 0)), [])
+                          end
+        | _ => (st, [-1])
+        end
+      else if c =? 3 then
+        match a with
+        | [op; cli; blob; off; len; wid] =>
+            (set_att (set_ops st (s_ops st ++ [{| o_id := op; o_kind := 3; o_cli := cli; o_blob := blob; o_off := off; o_len := len; o_wid := wid;
+                                                  o_succ := []; o_acked := []; o_reads := [] |}]))
+                     ((blob, wid, mkw wid off len) :: s_att st), [])
+        | _ => (st, [-1])
+        end
+      else if c =? 4 then
+        match a with
+        | [op; cli; blob; off; len] =>
+            (set_ops st (s_ops st ++ [{| o_id := op; o_kind := 4; o_cli := cli; o_blob := blob; o_off := off; o_len := len; o_wid := 0;
+                                         o_succ := []; o_acked := []; o_reads := [] |}]), [])
+        | _ => (st, [-1])
+        end
+      else if c =? 5 then
+        match a with
+        | op :: _ :: blob :: tract :: nbad :: r =>
+            let '(bad, _) := take nbad r in
+            let st1 := start_task st (new_task op 5 (s_gen st) (s_term st) blob tract bad 0 0 0) in
+            let st2 := flush 8 st1 [] in
+            (st2, out_section st2)
+        | _ => (st, [-1])
+        end
+      else if c =? 6 then
+        match a with
+        | [op; _; blob; tract; ver; badts] =>
+            let st1 := start_task st (new_task op 6 (s_gen st) (s_term st) blob tract [] ver badts 0) in
+            let st2 := flush 8 st1 [] in
+            (st2, out_section st2)
+        | _ => (st, [-1])
+        end
+      else if c =? 7 then
+        match a with mode :: r => step_exec st mode r | [] => (st, [-1]) end
+      else if c =? 8 then
+        match a with lose :: r => step_reply st lose r | [] => (st, [-1]) end
+      else if c =? 9 then
+        match a with [ts] => step_restart st ts | _ => (st, [-1]) end
+      else if c =? 10 then
+        match a with
+        | [] => (set_term_gen st (s_term st + 1) (s_gen st + 1) (s_known st), [])
+        | _ => (st, [-1])
+        end
+      else if c =? 11 then
+        match a with
+        | [ts] => let k := known_of st (s_gen st) in
+                  (set_term_gen st (s_term st) (s_gen st) (zset (s_known st) (s_gen st) (if zmem ts k then k else k ++ [ts])), [])
+        | _ => (st, [-1])
+        end
+      else if c =? 12 then
+        match a with [blob; tract; dv; dt] => step_probe st blob tract dv dt | _ => (st, [-1]) end
+      else if c =? 13 then step_issue st a
+      else if c =? 14 then
+        match a with op :: n :: cls :: runs => step_finclient st op n cls runs | _ => (st, [-1]) end
+      else if c =? 15 then
+        match a with
+        | [op] => match zget (s_fin st) op with
+                  | Some cc => (set_fin st (zdel (s_fin st) op), [cc])
+                  | None => (st, [-3])
+                  end
+        | _ => (st, [-1])
+        end
+      else if c =? 16 then step_rpcdone st a
+      else if c =? 17 then step_inject st a
+      else (st, [-1])
+  end.
+
+(* ------------------------------------------------------------------ the C01 state predicate *)
+(* the newest write attempt covering byte p of a blob *)
+Fixpoint newest_cover (att : list (Z * Z * wrec)) (blob p : Z) : option Z :=
+  match att with
+  | [] => None
+  | (b, wid, w) :: r => if (b =? blob) && covers w p then Some wid else newest_cover r blob p
+  end.
+
+Definition is_acked (st : state) (blob wid : Z) : bool :=
+  existsb (fun '(b, w, _) => (b =? blob) && (w =? wid)) (s_acked st).
+
+(* what byte p of the blob must read as: Some v if the property determines it (never written: 0;
+   newest attempt covering it acknowledged: that write), None if a newer/unfinished attempt leaves it open *)
+Definition expected_byte (st : state) (blob p : Z) : option Z :=
+  match newest_cover (s_att st) blob p with
+  | None => Some 0
+  | Some wid => if is_acked st blob wid then Some wid else None
+  end.
+
+(* replica of tract (blob, tract) at server h, as a reader with a lookup made NOW would use it
+   (durable host, at the durable version): does byte p (offset in the tract) read as the property demands? *)
+Definition vis_ok (st : state) (blob tract h p : Z) : bool :=
+  match tget (s_dtr st) (tkey blob tract) with
+  | None => true
+  | Some (dv, hosts) =>
+      if negb (zmem h hosts) then true
+      else match rget (s_reps st) (h, tkey blob tract) with
+           | None => true
+           | Some r =>
+               if negb (r_ver r =? dv) then true
+               else match expected_byte st blob (tract * TL + p) with
+                    | None => true
+                    | Some v => byte_at (r_app r) p =? v
+                    end
+           end
   end.
 
 Fixpoint run (st : state) (evs : list (list Z)) : list (list Z) :=
@@ -892,3 +1084,12 @@ Fixpoint run_state (st : state) (evs : list (list Z)) : state :=
   end.
 
 Definition run_case (ops : list (list Z)) : list (list Z) := run init_state ops.
+
+(* a run in which the model had no complaint: every client verdict is V_OK and no line was undecodable,
+   referred to an RPC the model does not know, or asked for a result that does not exist *)
+Definition line_ok (o : list Z) : bool :=
+  match o with
+  | [] => true
+  | c :: r => if c =? 777 then hd 0 r =? 1 else 0 <=? c
+  end.
+Definition clean_run (evs : list (list Z)) : bool := forallb line_ok (run init_state evs).
